@@ -54,7 +54,12 @@ package internal
 //@ func mergeAndValidateOIDCConfigs
 //@   requires wf: cfg != nil && WFConfig(cfg) && OverridesHaveDefault(cfg) && CallbacksParse(cfg)
 //@   modifies heap configv1.Filter.Type, heap oidcv1.OIDCConfig.Scopes, cfg.DefaultOidcConfig, above(watermark()), ghost CloneMark
+//@   ensures  no_override: result == nil ==> forall i int, j int :: 0 <= i && i < len(cfg.Chains) && 0 <= j && j < len(cfg.Chains[i].Filters) ==> !istype(cfg.Chains[i].Filters[j].Type, *configv1.Filter_OidcOverride)
+//@   ensures  shape: WFConfig(cfg) && cfg.Chains == old(cfg.Chains)
 //@   loop 1 invariant wf: cfg != nil && WFConfig(cfg) && cfg.Chains == $rangeslice1
+//@   loop 1 invariant done1: forall i int, j int :: 0 <= i && i <= rangeindex1 && 0 <= j && j < len(cfg.Chains[i].Filters) ==> !istype(cfg.Chains[i].Filters[j].Type, *configv1.Filter_OidcOverride)
+//@   loop 2 invariant done1: forall i int, j int :: 0 <= i && i <= rangeindex1 && 0 <= j && j < len(cfg.Chains[i].Filters) ==> !istype(cfg.Chains[i].Filters[j].Type, *configv1.Filter_OidcOverride)
+//@   loop 2 invariant done2: forall j int :: 0 <= j && j <= rangeindex2 ==> !istype(cfg.Chains[rangeindex1 + 1].Filters[j].Type, *configv1.Filter_OidcOverride)
 //@   loop 1 invariant ovr: OverridesHaveDefault(cfg)
 //@   loop 1 invariant old_objs: cfg.DefaultOidcConfig <= old(watermark()) && forall i int, j int :: 0 <= i && i < len(cfg.Chains) && 0 <= j && j < len(cfg.Chains[i].Filters) ==> cfg.Chains[i] <= old(watermark()) && cfg.Chains[i].Filters[j] <= old(watermark()) && cfg.Chains[i].Filters.base <= old(watermark()) && (istype(cfg.Chains[i].Filters[j].Type, *configv1.Filter_OidcOverride) ==> cfg.Chains[i].Filters[j].Type.pay <= old(watermark()) && cfg.Chains[i].Filters[j].GetOidcOverride() <= old(watermark()))
 //@   loop 1 invariant cbs: CallbacksParse(cfg)
@@ -67,6 +72,7 @@ package internal
 //@   requires wf: l != nil
 //@   modifies fields(addr(l.Config)), heap configv1.Filter.Type, heap oidcv1.OIDCConfig.Scopes, heap oidcv1.RedisConfig.ServerUri, above(watermark()), ghost CloneMark
 //@   ensures  typed: result == nil ==> FiltersTyped(addr(l.Config))
+//@   ensures  resolved: result == nil ==> ChainsResolved(addr(l.Config))
 //@   loop 1 invariant wf: l != nil && WFConfig(addr(l.Config)) && CallbacksParse(addr(l.Config)) && addr(l.Config).Chains == $rangeslice1
 //@   loop 1 invariant noover: addr(l.Config).DefaultOidcConfig == nil ==> forall i int, j int :: 0 <= i && i <= rangeindex1 && 0 <= j && j < len(addr(l.Config).Chains[i].Filters) ==> addr(l.Config).Chains[i].Filters[j].GetOidcOverride() == nil
 //@   loop 2 invariant wf: l != nil && WFConfig(addr(l.Config)) && CallbacksParse(addr(l.Config)) && addr(l.Config).Chains == $rangeslice1 && addr(l.Config).Chains[rangeindex1 + 1].Filters == $rangeslice2
